@@ -157,7 +157,7 @@ def run(ch, ctx, fault=None):
         for i in range(n_ops):
             op = ch.weighted("op", [
                 (2, "str"), (2, "render"), (3, "draw"), (3, "iter"), (2, "from_data"),
-                (1, "init_render_keep"), (2, "init_render_final"), (1, "from_finalized"),
+                (1, "init_render_keep"), (2, "init_render_final"), (2, "from_finalized"),
                 (6, "next"), (4, "next_many"), (1, "next_reentrant_close"), (3, "seek"),
                 (3, "set"), (2, "close"), (1, "finalize"), (2, "drop"), (1, "collect"),
             ])
@@ -240,12 +240,18 @@ def run(ch, ctx, fault=None):
                         if too_big:
                             vt.resize(rows, cols)
                 elif op == "from_finalized":
-                    if not released or not r.animated:
+                    if not r.animated:
                         continue
-                    tok = ch.pick("released", sorted(released))
-                    rd = released[tok]
-                    if rd.render_cls is not type(r):
-                        continue
+                    if released and ch.bool("older", 0.5):
+                        tok = ch.pick("released", sorted(released))
+                        rd = released[tok]
+                        if rd.render_cls is not type(r):
+                            continue
+                    else:
+                        # data its owner has just finalized
+                        rd = r._get_render_data_(iteration=True)
+                        tok = hooks.next_token
+                        rd.finalize()
                     fin = ch.bool("finalize", 0.5)
                     desc = "_from_render_data_(%r, <finalized data #%d>, finalize=%s)" % (r, tok, fin)
                     try:
